@@ -33,25 +33,42 @@ type zzArg struct {
 	dom bool
 }
 
-func (g *zzArg) str(name string) []byte {
-	b := zzBytes(g.pre+name, g.l)
+func (g *zzArg) str(name string) []byte { return g.strN(name, g.l) }
+
+// long values: 4 symbolic bytes at each end, concrete filler between
+func (g *zzArg) long(name string, n int) []byte {
+	b := make([]byte, n)
 	for i := range b {
-		g.dom = zzAnd(g.dom, zzAnd(b[i] >= 0x20, b[i] <= 0x7e))
+		b[i] = byte('a' + i%23)
 	}
+	copy(b, zzBytes(g.pre+name+".head", 4))
+	copy(b[n-4:], zzBytes(g.pre+name+".tail", 4))
 	return b
 }
 func (g *zzArg) strN(name string, n int) []byte {
+	if n > 24 {
+		b := g.long(name, n)
+		for _, i := range []int{0, 1, 2, 3, n - 4, n - 3, n - 2, n - 1} {
+			g.dom = zzAnd(g.dom, zzAnd(b[i] >= 0x20, b[i] <= 0x7e))
+		}
+		return b
+	}
 	b := zzBytes(g.pre+name, n)
 	for i := range b {
 		g.dom = zzAnd(g.dom, zzAnd(b[i] >= 0x20, b[i] <= 0x7e))
 	}
 	return b
 }
-func (g *zzArg) bin(name string) []byte { return zzBytes(g.pre+name, g.l) }
-func (g *zzArg) u8() uint8              { return zzU8(g.pre + "u8") }
-func (g *zzArg) u16() uint16            { return zzU16(g.pre + "u16") }
-func (g *zzArg) u32() uint32            { return zzU32(g.pre + "u32") }
-func (g *zzArg) boolean() bool          { return zzBool(g.pre + "b") }
+func (g *zzArg) bin(name string) []byte {
+	if g.l > 24 {
+		return g.long(name, g.l)
+	}
+	return zzBytes(g.pre+name, g.l)
+}
+func (g *zzArg) u8() uint8     { return zzU8(g.pre + "u8") }
+func (g *zzArg) u16() uint16   { return zzU16(g.pre + "u16") }
+func (g *zzArg) u32() uint32   { return zzU32(g.pre + "u32") }
+func (g *zzArg) boolean() bool { return zzBool(g.pre + "b") }
 
 func (g *zzArg) user(up *UserProperties, ps *[]zzProp) {
 	kl := g.l
